@@ -1,4 +1,5 @@
 import MsPack.Oab.Decompress
+import MsPack.Spec.CabEncode
 /-
 Helper lemmas for Proofs/Props/C06.lean: little-endian header fields, reading at a position,
 `copy_fh`'s loop, one round and the whole `while (target_size)` loop of both OAB decompressors on
@@ -8,9 +9,6 @@ namespace MsPack.Oab
 open MsPack MsPack.Generated
 
 /-! ## little-endian fields -/
-
-def enc32 (n : Nat) : Bytes :=
-  [UInt8.ofNat (n % 256), UInt8.ofNat (n / 256 % 256), UInt8.ofNat (n / 65536 % 256), UInt8.ofNat (n / 16777216 % 256)]
 
 theorem ofNat_toNat_lt (x : Nat) (h : x < 256) : (UInt8.ofNat x).toNat = x := by
   simp [UInt8.toNat_ofNat']; omega
